@@ -26,7 +26,11 @@ RULE = ('One offender transport sends generated sequences of hostile frames '
         'outstanding ack ids; unstructured text/bytes; frames that pass '
         "through engine.io's JSON sniffing; for msgpack: mutated maps) "
         'and finally stops answering pings (engine.io closes it from inside '
-        'the next broadcast that reaches it), '
+        'the next broadcast that reaches it); msgpack frames for the '
+        'literal namespace "*" and names without a slash; optionally one '
+        'more bystander whose disconnect is in progress (handler '
+        'suspended) while the frames - incl. refusable connection '
+        'requests - arrive, '
         'interleaved with well-formed traffic of 3 bystander clients that '
         'each hold a room, a session and an outstanding callback; both '
         'servers, default and msgpack serializers. Oracle after every '
@@ -60,6 +64,7 @@ SEEDS = [
     '3/x,§ID1§["r"]', '3§ID0§[]', '31[]', '3/c,§ID2§[1,2]',
     '61-§ID0§[{"_placeholder":true,"num":0}]',
     '61-/x,§ID1§[{"_placeholder":true,"num":0}]',
+    '0{"refuse":1}', '0/x,{"refuse":1}', '0/c,{"refuse":1}',
     '0', '0/x,{"token":"t"}', '0/none', '0/c', '0/unk', '1', '1/x', '1/c',
     '4/x,"err"', '4', '2/unk,["a"]', '2/§B0§,["a"]', '2/none,["a"]',
     '2["connect","§B0§",{}]', '2["disconnect","§B0§"]',
@@ -89,12 +94,21 @@ def strategy(tier):
                                                st.integers(0, 3))}))
     mp = st.one_of(
         st.fixed_dictionaries({'k': st.just('mp'), 'v': S.hostile_msgpack_st(
-            ['a', 'b', 'zz', '§B0§', '§B1§'], NSS + ['/unk', '§B0§', 'x'])}),
+            ['a', 'b', 'zz', '§B0§', '§B1§'], NSS + ['/unk', '§B0§', 'x', '*', '*'])}),
         st.fixed_dictionaries({'k': st.just('mp'), 'v': S.hostile_msgpack_st(
-            ['a', 'b', 'zz', '§B0§', '§B1§'], NSS + ['/unk', '§B0§', 'x'])}),
+            ['a', 'b', 'zz', '§B0§', '§B1§'], NSS + ['/unk', '§B0§', 'x', '*', '*'])}),
         st.fixed_dictionaries({'k': st.just('bin'), 'v': st.binary(
             max_size=30)}),
         st.fixed_dictionaries({'k': st.just('text'), 'v': text}),
+        # msgpack carries the namespace as a plain string: the catch-all
+        # marker itself, names without a leading slash
+        st.fixed_dictionaries({'k': st.just('mp'), 'v': st.sampled_from([
+            {'type': 0, 'nsp': '*'}, {'type': 0, 'nsp': '*', 'data': {}},
+            {'type': 2, 'nsp': '*', 'data': ['b', '§B0§', 'x']},
+            {'type': 2, 'nsp': '*', 'data': ['zz', '§B1§'], 'id': 1},
+            {'type': 2, 'nsp': '*', 'data': ['a', '§B2§']},
+            {'type': 1, 'nsp': '*'}, {'type': 0, 'nsp': 'x'},
+            {'type': 0, 'nsp': ''}, {'type': 2, 'nsp': '', 'data': ['a']}])}),
         st.fixed_dictionaries({'k': st.just('by'), 'b': st.integers(0, 2),
                                'id': st.one_of(st.none(),
                                                st.integers(0, 3))}))
@@ -109,7 +123,10 @@ def strategy(tier):
                                min_size=1, max_size=n),
             # afterwards the offender stops answering pings: engine.io
             # notices inside the next send to it and closes it from there
-            'silent': st.booleans()})
+            'silent': st.booleans(),
+            # asyncio: one more bystander is in the middle of its disconnect
+            # (its handler suspended) while the offender's frames arrive
+            'mid_disc': st.booleans()})
     return st.sampled_from(['default', 'default', 'msgpack']).flatmap(mk)
 
 
@@ -164,6 +181,8 @@ def _run(case, w):
     def mk(kind):
         def h(*args):
             log.append((kind, args))
+            if kind == 'connect' and args and args[-1] == {'refuse': 1}:
+                return False
             return 'r'
         return h
 
@@ -203,6 +222,26 @@ def _run(case, w):
         w.recv(t)
     w.recv(t_off)
     by_sids = {b['sid'] for b in by}
+    vst = None
+    if case.get('mid_disc') and aio:
+        vst = {'count': 0}
+        tv = w.open()
+        cv, _ = w.connect(tv, '/')
+        vst['sid'] = w.clients[cv]['sid']
+        vst['t'] = tv
+        vst['gate'] = w.h.loop.create_future()
+        by_sids.add(vst['sid'])
+
+        async def disc_root(sid, reason):
+            log.append(('disconnect', (sid, reason)))
+            if sid == vst['sid']:
+                vst['count'] += 1
+                if not vst['gate'].done():
+                    await vst['gate']
+        sio.on('disconnect', disc_root, namespace='/')
+        vst['task'] = w.h.loop.spawn(sio.disconnect(vst['sid']))
+        w.h.loop.run_until_idle()
+        w.recv(tv)
     log.clear()
 
     def cb_ids(sid):
@@ -358,6 +397,11 @@ def _run(case, w):
             if x[3] != y[3]:
                 raise Violation('bystander-disconnected',
                                 'step %d frame %r' % (step, fr))
+        if vst is not None and sio.manager.is_connected(vst['sid'], '/'):
+            raise Violation('bystander-disconnect-undone',
+                            'step %d frame %r: the client whose disconnect '
+                            'is in progress counts as connected again'
+                            % (step, fr))
         if len(cb_log) != ncb:
             raise Violation('bystander-callback-invoked',
                             'step %d frame %r: %r' % (step, fr, cb_log[ncb:]))
@@ -374,6 +418,18 @@ def _run(case, w):
             raise Violation('resource-peak-memory',
                             'step %d frame len %d: peak %d bytes'
                             % (step, flen, peak))
+    if vst is not None:
+        vst['gate'].set_result(None)
+        w.h.loop.run_until_idle()
+        if w.t_alive[vst['t']]:
+            w.lose(vst['t'])
+        w.h.settle()
+        if vst['count'] != 1:
+            raise Violation('bystander-disconnect-handler-twice',
+                            'the disconnect handler of the client whose '
+                            'disconnect was in progress ran %d times'
+                            % vst['count'])
+        labels['bystander_mid_disconnect'] = True
     # ---- final exchange: everybody is still served correctly
     log.clear()
     if case.get('silent'):
